@@ -182,6 +182,9 @@ G_Term(cls, m, n, b, seed, depth, mode) ==
                          IF mode = 1 THEN G_PosDiagTerm(n, b2, seed + 5) ELSE Op_Diag(G_Int(b2 \o <<n>>, seed + 5)))
        \* variants whose diagonal part is an IdentityLinearOperator (its matmul / inverse return their argument: aliasing hazard)
        [] cls = "LRRAddedDiagI" -> Op_LRRAddedDiag(Op_LowRankRoot(G_Small(b1 \o <<n, T_Max(1, n - 1)>>, seed + 3)), Op_Identity(n, b1))
+       \* the non-diagonal part is a root / Kronecker product OF IDENTITIES: its _matmul hands back its argument (aliasing hazard, the other way round)
+       [] cls = "AddedDiagRootI" -> Op_AddedDiag(Op_RootO(Op_Identity(n, b1)), IF mode = 1 THEN Op_Diag(G_Pos(b1 \o <<n>>, seed + 5)) ELSE Op_Diag(G_Int(b1 \o <<n>>, seed + 5)))
+       [] cls = "AddedDiagKronI" -> Op_AddedDiag(Op_Kron(<<Op_Identity(n, b1), Op_Identity(1, b1)>>), IF mode = 1 THEN Op_Diag(G_Pos(b1 \o <<n>>, seed + 5)) ELSE Op_Diag(G_Int(b1 \o <<n>>, seed + 5)))
        [] cls = "AddedDiagI" -> Op_AddedDiag(G_Term("Dense", n, n, b1, seed + 3, 0, mode), Op_Identity(n, b1))
        [] cls = "SumI" -> Op_Sum(<<G_Term("Dense", n, n, b1, seed + 3, 0, mode), Op_Identity(n, b1)>>)
        [] cls = "LRRAddedDiag" ->
@@ -279,10 +282,10 @@ G_AllClasses == <<"Dense", "User", "Diag", "ConstDiag", "Identity", "Zero", "Toe
                   "LowRankRoot", "Kron", "Kron3", "KronTri", "KronDiag", "KronAddedDiag", "SumKron", "AddedDiag",
                   "LRRAddedDiag", "Sum", "Sum3", "PsdSum", "Matmul", "Mul", "ConstMul", "BlockDiag", "BlockInter",
                   "SumBatch", "BatchRepeat", "Cat", "Interp", "Masked", "Perm", "TransPerm", "Kernel", "SumInterp", "MatmulTri", "InterpRootSameIdx">>
-G_SquareOnly == {"CholKronTriU", "LowRankHuge", "ConstMulI", "BlockDiagConstMulI", "InterpRootSameIdx", "MatmulTri", "LRRAddedDiagI", "AddedDiagI", "SumI", "Diag", "ConstDiag", "Identity", "Toeplitz", "Tri", "Chol", "CholU", "Root", "LowRankRoot", "Kron3", "KronTri",
+G_SquareOnly == {"AddedDiagRootI", "AddedDiagKronI", "CholKronTriU", "LowRankHuge", "ConstMulI", "BlockDiagConstMulI", "InterpRootSameIdx", "MatmulTri", "LRRAddedDiagI", "AddedDiagI", "SumI", "Diag", "ConstDiag", "Identity", "Toeplitz", "Tri", "Chol", "CholU", "Root", "LowRankRoot", "Kron3", "KronTri",
                  "KronDiag", "KronAddedDiag", "SumKron", "AddedDiag", "LRRAddedDiag", "PsdSum", "Mul", "BlockDiag",
                  "BlockInter", "Perm", "TransPerm"}
-G_LeafClasses == {"ConstMulBc", "CholKronTriU", "LowRankHuge", "ConstMulI", "BlockDiagConstMulI", "InterpRootSameIdx", "MixedDef", "AddedDiagRootConst", "AddedDiagBig", "DenseBig", "KronCholU", "BlockDiagCholU", "SumInterp", "MatmulTri", "LRRAddedDiagI", "AddedDiagI", "SumI", "Dense", "User", "Diag", "ConstDiag", "Identity", "Zero", "Toeplitz", "Chol", "CholU", "SumZ", "LowRankRoot", "KronTri",
+G_LeafClasses == {"AddedDiagRootI", "AddedDiagKronI", "ConstMulBc", "CholKronTriU", "LowRankHuge", "ConstMulI", "BlockDiagConstMulI", "InterpRootSameIdx", "MixedDef", "AddedDiagRootConst", "AddedDiagBig", "DenseBig", "KronCholU", "BlockDiagCholU", "SumInterp", "MatmulTri", "LRRAddedDiagI", "AddedDiagI", "SumI", "Dense", "User", "Diag", "ConstDiag", "Identity", "Zero", "Toeplitz", "Chol", "CholU", "SumZ", "LowRankRoot", "KronTri",
                   "KronDiag", "SumKron", "LRRAddedDiag", "Perm", "TransPerm", "Kernel"}
 \* classes that only exist for PSD arguments
 G_PsdOnly == {"CholKronTriU", "Chol", "CholU", "PsdSum", "Mul"}
